@@ -171,8 +171,25 @@ Definition add_numeric_suffix (use_names : bool) (st : cstate) (p : nat) : cstat
   | None => st       (* not reachable *)
   end.
 
-Definition add_abstract_suffix (st : cstate) (p : nat) : cstate :=
-  let '(l, res) := st in (cset_name p (c_name (cget l p) ++ lit "_abstract") l, res).
+(* since fix 5e6ea57: "<name>_abstract" is tested against the reserved set and falls back to the
+   numeric suffix search when it is taken *)
+Definition add_abstract_suffix (use_names : bool) (st : cstate) (p : nat) : cstate :=
+  let '(l, res) := st in
+  let reserved := match res with
+                  | Some [] | None => map (c_cmp use_names) l
+                  | Some r => r
+                  end in
+  let c := cget l p in
+  let new_name := c_name c ++ lit "_abstract" in
+  let cmp := alnum (if use_names then new_name else build_qname (c_ns c) new_name) in
+  if str_in cmp reserved then
+    match next_index (S (List.length reserved)) use_names (c_ns c) new_name reserved 1 with
+    | Some i =>
+        let nn := new_name ++ us ++ to_dec i in
+        (cset_name p nn l, Some (alnum (if use_names then nn else build_qname (c_ns c) nn) :: reserved))
+    | None => st       (* not reachable *)
+    end
+  else (cset_name p new_name l, Some (cmp :: reserved)).
 
 Definition rename_classes (use_names : bool) (st : cstate) (g : list nat) : cstate :=
   match g with
@@ -181,7 +198,7 @@ Definition rename_classes (use_names : bool) (st : cstate) (g : list nat) : csta
       let l := fst st in
       let abstract := filter (fun p => c_abstract (cget l p)) g in
       match g, abstract with
-      | [_; _], [p] => add_abstract_suffix st p
+      | [_; _], [p] => add_abstract_suffix use_names st p
       | _, _ =>
           let total_elements := List.length (filter (fun p => c_element (cget l p)) g) in
           fold_left (fun s p => if negb (c_element (cget l p)) || (Nat.ltb 1 total_elements)
